@@ -480,6 +480,7 @@ func listSys(kind, capa, depth int, thorough bool) *seqx.Sys {
 		Observe:  func(i, m interface{}) string { return lobserve(i.(list.AnyList), m.(*lmodel)) },
 		OpLabel:  func(op int) string { return ops[op].String() },
 		MaxDepth: depth,
+		ModelKey: func(m interface{}) string { return fmt.Sprintf("%#v", m.(*lmodel).els) },
 	}
 }
 
@@ -658,6 +659,7 @@ func llSys(depth int) *seqx.Sys {
 		Observe:  func(i, m interface{}) string { return llobserve(i.(*list.LinkedList), m.(*llmodel)) },
 		OpLabel:  func(op int) string { return ops[op].String() },
 		MaxDepth: depth,
+		ModelKey: func(m interface{}) string { return fmt.Sprint(m.(*llmodel).els) },
 	}
 }
 
